@@ -5,6 +5,7 @@ HOOK_COMMITS = [
     "6be3b1e verif hook: export tunnel byte carriers (base64 stream reader, HTTP tunnel conn, WebSocket reader/writer) under the verif build tag",
     "6f97682 verif hook: export the SRTP context and its MIKEY conversion (verif_export_srtp.go) under the verif build tag",
     "d8d9e22 verif hook: setters for the private RTCP report periods (verif_export_periods.go) under the verif build tag",
+    "2609285 verif hook: setter for the private clock of pkg/rtptime (verif_export.go) under the verif build tag",
 ]
 
 NOT_APPLICABLE = {}
